@@ -387,6 +387,11 @@ func extractBufioWriterBuf(bw *bufio.Writer, w io.Writer) []byte {
 	return writeBuf
 }
 
+// writeError reports a violation by the peer that was found while reading and
+// closes the connection: nothing that follows the violation may be processed.
+// The caller holds readMu, which close needs.
 func (c *Conn) writeError(code StatusCode, err error) {
 	c.writeClose(code, err.Error())
+	c.readMu.unlock()
+	c.close()
 }
